@@ -120,6 +120,12 @@ GenericsExact(it, ev, k) ==
         LET t == TypeOf(ev, MsgTypeName(it, k)) IN
         /\ SeqToSet(t.generics) = Used(it, k)
         /\ NoDuplicates(t.generics)
+(* every place that names a generated message type by an associated type of an impl block (`type Exec = ExecMsg<..>` in the *)
+(* contract's Api impl) gives it the type's own parameters, in the type's own order                                      *)
+ApiNamesTypesInOrder(ev) ==
+    \A im \in Range(ev.impls) : \A a \in Range(im.assoc) :
+        (HasType(ev, a.head) /\ \A x \in Range(a.args) : x \in SeqToSet(TypeOf(ev, a.head).generics))
+            => a.args = TypeOf(ev, a.head).generics
 (* bounds on the type itself and on every impl block of exactly that type *)
 BoundsOnlyOfUsed(it, ev, k, whereText) ==
     LET name == MsgTypeName(it, k)
